@@ -6,6 +6,7 @@ import XV.Model.ReaderStack
 import XV.Model.Expansion
 import XV.Model.DomHeap
 import XV.Lemmas.MsgTables
+import XV.Model.DomParserReset
 /-!
 # C01 — arbitrary input never causes memory errors, UB, hangs or foreign exceptions  (PARTIAL)
 
@@ -1319,5 +1320,42 @@ theorem ucs4_bom_shift_as_extracted :
   ucs4_bom_shift_status rawBufSize ucs4BomLoopSlack ucs4BomLoopShift (by decide)
 
 end Heap
+
+section DomParserReset
+open XV.Gen.DomParserFields XV.Model.DomParserReset
+
+/-! ## reused DOM parser: no pointer into a released document survives `reset()` -/
+
+/-- `domParser_reset_complete`: every data member of `AbstractDOMParser` that is a raw pointer to a DOM node class is
+set to 0 by `reset()` or a same-object method it calls (as extracted; path-insensitive) -/
+theorem domParser_reset_complete : ∀ m ∈ members, m.docPointer = true → m.name ∈ assignedNullInReset := by
+  decide
+
+/-- … and that `reset()` is reached before any callback of the next parse: `resetDocument()` and `parseReset()` call it,
+and every scanner's `scanReset(const InputSource&)` calls `fDocHandler->resetDocument()` -/
+theorem domParser_reset_reached :
+    resetDocumentCallsReset = true ∧ parseResetCallsReset = true ∧ ∀ s ∈ scanResetAnnounces, s.2 = true := by
+  decide
+
+/-- hence, whatever the parser pointed at and whichever documents were released in between, after `reset()` no
+document-pointing member points into a released document -/
+theorem domParser_no_stale_pointer_after_reset (st : PState) (released : Nat → Bool) :
+    stale (reset assignedNullInReset st) released = [] := by
+  unfold stale
+  apply List.filter_eq_nil_iff.mpr
+  intro n hn
+  simp only [List.mem_map, List.mem_filter] at hn
+  obtain ⟨m, ⟨hm, hd⟩, rfl⟩ := hn
+  have := domParser_reset_complete m hm hd
+  simp [reset, this]
+
+/-- the statement is not vacuous (there are such members, `fCurrentEntity` among them), and a `reset()` that skips one
+member does leave a stale pointer -/
+theorem domParser_reset_nonvacuous :
+    (∃ m ∈ members, m.docPointer = true ∧ m.name = "fCurrentEntity") ∧
+    stale (reset (assignedNullInReset.filter (· ≠ "fCurrentEntity")) (fun _ => some 7)) (fun d => d == 7) = ["fCurrentEntity"] := by
+  decide
+
+end DomParserReset
 
 end XV.Props.C01
